@@ -140,7 +140,11 @@ where
             let mut shard = shard.write();
             match shard.entry(self.hash(), |p| self.key() == p.key(), |p| p.hash()) {
                 HashTableEntry::Occupied(o) => {
-                    o.remove();
+                    // A newer piece with the same key may have replaced this one in the meantime.
+                    // Only remove the entry if it still refers to the record of this piece.
+                    if std::ptr::eq(o.get().key(), self.key()) {
+                        o.remove();
+                    }
                 }
                 HashTableEntry::Vacant(_) => {}
             }
